@@ -242,7 +242,7 @@ func (e *Engine) LoadPackages(dirs []string) error {
 			sp.Build()
 		}
 	}
-	return nil
+	return e.LoadAxioms()
 }
 
 func normFuncName(fn *ssa.Function) string {
